@@ -467,25 +467,29 @@ example : gRunP exSig exEv ⟨gInitState 2, 0, 0⟩ exEvents = some [[0], [1], [
 /-! ## the call sites, from the generated skeletons -/
 
 /-- **strategies_clear_after_change** — each step (init / shake / close) of each class derived from
-    validation_strategy, entered with an up-to-date cache, leaves it up to date on every path: a change
-    of the training set is followed by clear() on the training evaluator before the step returns (and
-    the step does not evaluate in between). -/
+    validation_strategy keeps an up-to-date cache up to date on every path: entered with an empty
+    cache it leaves it empty, entered with current values it never leaves stale ones — a change of
+    the training set is followed by clear() on the training evaluator before the step returns, or
+    preceded by one with no evaluation in between. -/
 theorem strategies_clear_after_change :
-    ∀ st ∈ Gen.strategies, sumOf st .init false = some false ∧ sumOf st .shake false = some false ∧
-      sumOf st .close false = some false := by decide
+    ∀ st ∈ Gen.strategies, stepKeepsCurrent st .init = true ∧ stepKeepsCurrent st .shake = true ∧
+      stepKeepsCurrent st .close = true := by decide
 
 /-- **search_run_checked** — the checker accepts search::run (as src_search runs it) with each strategy -/
 theorem search_run_checked : ∀ st ∈ Gen.strategies, safeUnder Gen.searchRun st = true := by decide
 
 /-- **search_run_never_stale** — no execution of search::run, with any of the strategies, evaluates
-    through the training evaluator between a change of the training set and the next clear(). -/
+    through the training evaluator while it may hold values computed on a previous training set. -/
 theorem search_run_never_stale (st : String × Eff × Eff × Eff) (hst : st ∈ Gen.strategies)
-    (t : List Atom) (ht : Trace (stepOf st) Gen.searchRun t) : (runA false t).isSome = true := by
+    (t : List Atom) (ht : Trace (stepOf st) Gen.searchRun t) : (runA .fresh t).isSome = true := by
   have h := search_run_checked st hst
-  simp only [safeUnder, beq_iff_eq] at h
-  obtain ⟨r0, e0, _⟩ := post_sound (sum := sumOf st) (fun m s r h => sumOf_sound st m s r h) ht false false h false
-    (le_refl _)
-  simp [e0]
+  simp only [safeUnder] at h
+  cases hp : post (sumOf st) Gen.searchRun .fresh with
+  | none => simp [hp] at h
+  | some r =>
+    obtain ⟨r0, e0, _⟩ := post_sound (sum := sumOf st) (fun m s r h => sumOf_sound st m s r h) ht .fresh r hp .fresh
+      (le_refl _)
+    simp [e0]
 
 /-- **search_run_transparent** — every answer the (generated) proxy gives during any execution of
     search::run with any strategy, whatever data the changes install and whichever individuals are
@@ -497,7 +501,7 @@ theorem search_run_transparent {Ind Data : Type} (sig : Ind → Key) (ev : Data 
     (es : List (Ev Ind Data)) (hr : Realizes t es) (bits : Nat) (d0 : Data) :
     gRunP sig ev ⟨gInitState bits, d0, 0⟩ es = some (runDirect ev d0 es) :=
   proxy_transparent_gen sig ev bits d0 es
-    (disciplined_of_runA sig ev hne hf hr false d0 none [] (search_run_never_stale st hst t ht) (fun _ => Or.inl rfl))
+    (disciplined_of_runA sig ev hne hf hr .fresh d0 none [] (search_run_never_stale st hst t ht) rfl)
 
 /-- non-vacuity: search::run has executions with changes, clears, loads and evaluations (for every
     strategy the witness trace of `pick` is a trace; for dss it is long and mixed), and every atom
